@@ -476,6 +476,8 @@ Section Api.
       end
     end.
 
+  Definition store_add_top (d : nat) (data : val) (h : heap) : heap * res := store_add FUEL d data h.
+
   Definition store_get (d : nat) (id : ustring) (h : heap) : heap * res :=
     match get h d with
     | Some (NStore m) => (h, RVal (match assoc id m with Some o => o | None => VA ANone end))
